@@ -71,7 +71,7 @@ class C16(Check):
     floor_nontrivial = 20
     required_counters = ("catalogs_created", "points_checked", "reproducibility_pairs", "uniformity_tests")
     shards = (12, 16)
-    budget = (70, 500)
+    budget = (300, 500)
 
     def cases(self, tier, seed):
         q = tier == "quick"
